@@ -515,8 +515,8 @@ fn main() {
     }
     let mut rng = Rng::new(args.seed);
     let nscen = match args.tier {
-        Tier::Quick => 7,
-        Tier::Thorough => 90,
+        Tier::Quick => 5,
+        Tier::Thorough => 60,
         Tier::Search => 40,
     };
     // fixed scenarios first: publish / ack / publish-without-waiting, explicit policy with out-of-order acks, imports with body-less operations
